@@ -114,13 +114,29 @@ Theorem C04_fill_refuses_outside_low minT maxT e0 rest :
 Proof. exact (fill_blanks_raises_low minT maxT e0 rest). Qed.
 Print Assumptions C04_fill_refuses_outside_low.
 
-(* The recorded finding F19: when every interval of the blank-filled tier is below the
-   threshold the tier is written with no intervals, which is not a partition of the span. *)
-Theorem C04_all_short_refuted :
+(* F19 (repaired): when every interval of the blank-filled tier is below the threshold the tier used
+   to be written with no intervals, which is not a partition of the span (the function before the
+   repair is kept as remove_ultrashort_legacy for this witness) ... *)
+Theorem C04_all_short_legacy_refuted :
   exists thr minT hi l, 0 < snd thr /\ partitionb minT l = Some hi /\ minT < hi
-    /\ partitionb minT (remove_ultrashort thr minT l) <> Some hi.
+    /\ partitionb minT (remove_ultrashort_legacy thr minT l) <> Some hi.
 Proof. exists (3, 1), 0, 1, [DI 0 1 [97%N]]. vm_compute. repeat split; discriminate. Qed.
-Print Assumptions C04_all_short_refuted.
+Print Assumptions C04_all_short_legacy_refuted.
+
+(* ... now one blank interval covers the tier, as for a tier without entries *)
+Theorem C04_all_short_single_blank thr minT l hi :
+  partitionb minT l = Some hi -> l <> [] -> existsb (long thr) l = false ->
+  remove_ultrashort thr minT l = [DI minT hi []].
+Proof. intros H. exact (ultra_all_short thr minT l hi H). Qed.
+Print Assumptions C04_all_short_single_blank.
+
+(* hence, whatever the lengths of its intervals, a non-empty partition of a span is written as a
+   partition of that span: the side condition "some interval reaches the threshold" is gone *)
+Theorem C04_threshold_keeps_partition thr minT l hi :
+  0 < snd thr -> partitionb minT l = Some hi -> l <> [] ->
+  partitionb minT (remove_ultrashort thr minT l) = Some hi.
+Proof. intros H. exact (ultra_partition_always thr H minT l hi). Qed.
+Print Assumptions C04_threshold_keeps_partition.
 
 (* non-vacuity: a tier with a gap, a sliver and ordinary intervals meets the hypotheses *)
 Example C04_hypotheses_satisfiable :
